@@ -946,7 +946,7 @@ Proof.
 Qed.
 
 (* ------------------------------------------------------------------ the last-free-id race *)
-(* without reservation (HEAD): when exactly one id k is free, two PADRs that both pass allocateSessionID
+(* without reservation (before 46cb3dc): when exactly one id k is free, two PADRs that both pass allocateSessionID
    before either reaches addToIndexes are both given k; after both have indexed, two sessions alive in the
    table carry the same PPPoE session-id *)
 Lemma race_last_free_id v e s tA tB pA pB tgA tgB k :
@@ -999,7 +999,7 @@ Proof.
     split; [apply lookup_insert|]. split; [intros Hx; inversion Hx; lia | auto].
 Qed.
 
-(* ------------------------------------------------------------------ HEAD = reserving variant when PADRs do not overlap *)
+(* ------------------------------------------------------------------ the unreserved variant equals the reserving one when PADRs do not overlap *)
 Definition no_overlap (o : op) : Prop := match o with PBEGIN _ _ | PCOMMIT _ => False | _ => True end.
 
 Lemma step_unreserved_eq e s o : pend s = [] -> no_overlap o -> step Unreserved e s o = step ReserveOnly e s o.
@@ -1050,7 +1050,7 @@ Lemma reserving_Repaired : reserving Repaired. Proof. repeat split; reflexivity.
 Lemma owning_Repaired : owning Repaired. Proof. split; [reflexivity | apply reserving_Repaired]. Qed.
 Lemma owning_HeadReserve : owning ReserveOnly. Proof. split; [reflexivity | apply reserving_HeadReserve]. Qed.
 
-(* /repo HEAD, histories in which no two PADRs overlap between allocation and indexing: distinct non-zero ids *)
+(* before 46cb3dc, histories in which no two PADRs overlap between allocation and indexing: distinct non-zero ids *)
 Lemma sid_distinct_nonzero_unreserved e ops s outs x y : Forall no_overlap ops ->
   run Unreserved e st0 ops = Some (s, outs) -> alive s x -> alive s y ->
   0 < s_sid x < 65536 /\ (s_sid x = s_sid y -> x = y).
@@ -1058,7 +1058,7 @@ Proof.
   intros Hall Hr. rewrite run_unreserved_eq in Hr; auto. eapply sid_distinct_nonzero; [apply reserving_HeadReserve | exact Hr].
 Qed.
 
-(* /repo HEAD: isolation on the two primary indexes (the lookup paths of PADT and session packets) *)
+(* before 46cb3dc / 9893c59: isolation on the two primary indexes (the lookup paths of PADT and session packets) *)
 Lemma isolation_unreserved e s o s' r t : pend s = [] -> no_overlap o -> Inv s -> sender o = Some t ->
   step Unreserved e s o = Some (s', r) ->
   (forall k x, by_sid s !! k = Some x -> s_tup x <> t -> by_sid s' !! k = Some x) /\
@@ -1321,7 +1321,7 @@ Proof.
   eapply cookie_sound in Hv; eauto. destruct Hv as (ts & Hin & Hfresh & _). eauto.
 Qed.
 
-(* HEAD (unguarded removeFromIndexes): host A gives its session host B's Username and PADTs its own session;
+(* before 9893c59 (unguarded removeFromIndexes): host A gives its session host B's Username and PADTs its own session;
    B's usernameIndex entry is gone *)
 Definition bob : bytes := [98; 111; 98].
 Lemma attr_remove_refuted : exists e ops s outs xB s' r,
@@ -1436,7 +1436,7 @@ Proof.
   intros k Hk. apply lookup_insert_ne. congruence.
 Qed.
 
-(* /repo HEAD before the HA patch: the peer's id 1 is installed over the live local session with id 1; the local
+(* before 9d39845: the peer's id 1 is installed over the live local session with id 1; the local
    session stays in c.sessions but can no longer be reached, echoed or terminated by its id, and two sessions
    alive in the table carry id 1.  Replayed on the real code (harness op H, restoreFromHASync). *)
 Lemma hasync_refuted : exists e ops s outs xA xB,
